@@ -147,6 +147,16 @@ PROPS = {
                      "Ord on Fq/Fr (goes through into_repr)"],
         assumptions=["Kani 0.68 / CBMC 6.11; the unsafe transmute constructor pairing::bls12_381::transmute::{fq, fr} and mem::transmute_copy are used to move raw limbs in and out", "rustc codegen (MIR -> goto)"],
     ),
+    'C10': dict(
+        units_quick=['kani:window', 'scalar'], units_thorough=['kani:window', 'scalar'], timeout=3000,
+        technique="Kani/CBMC full-domain harness for the window heuristic; Verus composition contract for the entry point",
+        claim="PARTIAL: find_pippinger_window (G1 and G2) returns, for every usize number of components, a window in 1..=16 equal to the documented table and "
+              "monotone in its argument (CBMC, full domain); sum_of_products = sum_of_products_pippinger(points, scalars, find_pippinger_window(min(#points, "
+              "#scalars))) (real body, Verus). The bucket method itself (digit extraction, bucket accumulation, running sums), the table-driven variant and the "
+              "panic precondition are NOT decided.",
+        not_covered=["sum_of_products_pippinger (six nested loops): not decided", "sum_of_products_precomp_256: not decided"],
+        assumptions=["Kani 0.68 / CBMC 6.11", A['TOOLS']],
+    ),
 }
 
 HOOK_COMMITS = []
